@@ -31,7 +31,7 @@ PLAN = {
     'C10': [('A', None)],
     'C11': [('A', None)],
     'C12': [('A', None), ('D', None)],
-    'C13': [('A', None), ('A', None), ('B', 'restart')],
+    'C13': [('A', None), ('A', None), ('B', 'restart'), ('B', 'faultcont')],
     'C14': [('A', None)],
     'C15': [('U', None)],
     'C16': [('A', None), ('K', None), ('A', None), ('K', None), ('A', None), ('K', 'helpers')],
